@@ -211,6 +211,7 @@ class Verdict:
         self.unlisted = []      # (signature, replay dict)
         self.notes = []
         self.machinery = []
+        shutil.rmtree(os.path.join(OUT, "replay", pid), ignore_errors=True)
 
     def violation(self, signature, replay):
         """signature: short stable string identifying the failing input class."""
